@@ -26,6 +26,7 @@ class ArmError(Exception):
 TOKEN = re.compile(r"""
     (?P<ws>\s+|//[^\n]*|/\*.*?\*/)
   | (?P<str>b?"(?:[^"\\]|\\.)*")
+  | (?P<chr>b?'(?:[^'\\]|\\.)')
   | (?P<num>\d[\d_]*(?:u8|u16|u32|u64|usize|i8|i16|i32|i64|isize)?)
   | (?P<id>\$?[A-Za-z_]\w*)
   | (?P<p>::|=>|->|\.\.|\|\||&&|==|!=|<=|>=|[#\[\](){}<>,;:.&*?|=!+\-/@'])
@@ -152,6 +153,8 @@ class P:
         if k == "num":
             self.next()
             return ("int", int(re.sub(r"[a-z_]\w*$", "", v.replace("_", "")) or "0"))
+        if k == "chr":
+            raise ArmError(f"{self.what}: character literal {v} is outside the vocabulary")
         if k == "str":
             self.next()
             if v.startswith("b"):
